@@ -64,7 +64,24 @@ pub enum T {
     BTyped,
     BJCtx,
     BTCtx,
+    // ---- re-entrant handlers (c03_re.rs; not drawn by the general generator): functions of the registry mounted at /rr
+    // (and /r2) that read and write the registry they live in / the other one, plain value read and write on /rr, and a
+    // context-aware handler that calls into the server's peer registry while it runs
+    RrSet,
+    RrMerge,
+    RrMergeRoot,
+    RrRegFn,
+    RrSetRoot,
+    RrRead,
+    RrCross,
+    R2Cross,
+    RrConst,
+    RrW,
+    PeerReg,
 }
+
+/// Handlers that re-enter the state they are served from.
+pub const REENT_FN_T: [T; 9] = [T::RrSet, T::RrMerge, T::RrMergeRoot, T::RrRegFn, T::RrSetRoot, T::RrRead, T::RrCross, T::R2Cross, T::PeerReg];
 
 pub const ALL_T: [T; 19] = [
     T::Json,
@@ -110,6 +127,17 @@ impl T {
             T::BTyped => "/b/typed",
             T::BJCtx => "/b/jctx",
             T::BTCtx => "/b/tctx",
+            T::RrSet => "/rr/set",
+            T::RrMerge => "/rr/merge",
+            T::RrMergeRoot => "/rr/mergeroot",
+            T::RrRegFn => "/rr/regfn",
+            T::RrSetRoot => "/rr/setroot",
+            T::RrRead => "/rr/read",
+            T::RrCross => "/rr/cross",
+            T::R2Cross => "/r2/cross",
+            T::RrConst => "/rr/const",
+            T::RrW => "/rr/w",
+            T::PeerReg => "/peerreg",
         }
     }
     /// registered with a `_blocking` constructor in the base router (off-reader on any WebSocket server)
@@ -418,6 +446,120 @@ fn registry(sid: u8) -> Arc<Registry> {
     reg
 }
 
+// ---- re-entrant handlers
+
+pub fn rr_const() -> Value {
+    json!({"fixed": [1, 2, 3], "s": "never written"})
+}
+
+/// Root of the /rr registry: every key the re-entrant functions and the plain value requests use.
+fn rr_root(limit: u64) -> Value {
+    json!({"limit": limit, "cfg": {"a": 1}, "const": rr_const(), "w": 0, "seen": 0, "dyn": {}})
+}
+
+/// The function registered under `t`: it re-enters `own` (the registry it is registered in) and, for the cross kinds,
+/// `other`, through the registries' public API while it runs, then returns the usual record. The result does not depend on
+/// what the registries hold (other connections change them at the same time).
+fn reent_logic(sid: u8, t: T, v: Value, own: &Registry, other: &Registry) -> Result<Value, (ErrorCode, String)> {
+    let Some(r) = parse_req(&v) else {
+        ev(sid, EV_H, 0, t as u8);
+        return Err((ErrorCode::InvalidBody, "no token in body".into()));
+    };
+    ev(sid, EV_H, r.t, t as u8);
+    let fail = |e: repe::RegistryError| (ErrorCode::InternalError, format!("re-entrant registry call failed: {e}"));
+    let one = |k: String, v: Value| -> serde_json::Map<String, Value> { [(k, v)].into_iter().collect() };
+    match t {
+        T::RrSet => {
+            let _previous = own.read_value("/limit").map_err(fail)?;
+            own.register_value("/limit", json!(r.t % 1000)).map_err(fail)?;
+        }
+        T::RrMerge => {
+            own.merge_at("/cfg", one(format!("k{}", r.t % 7), json!(r.t))).map_err(fail)?;
+            let _ = own.read_value("/cfg").map_err(fail)?;
+        }
+        T::RrMergeRoot => own.merge_root(one("seen".into(), json!(r.t))).map_err(fail)?,
+        T::RrRegFn => {
+            own.register_function(&format!("/dyn/f{}", r.t % 5), |p: Option<Value>| -> Result<Value, (ErrorCode, String)> { Ok(p.unwrap_or(Value::Null)) }).map_err(fail)?;
+            own.register_value("/dyn/count", json!(r.t)).map_err(fail)?;
+        }
+        T::RrSetRoot => own.set_root(rr_root(r.t % 1000)),
+        T::RrRead => {
+            let _ = own.read_value("/limit").map_err(fail)?;
+            let _ = own.read_value("/const").map_err(fail)?;
+        }
+        T::RrCross => {
+            let _ = own.read_value("/limit").map_err(fail)?;
+            other.register_value("/n", json!(r.t)).map_err(fail)?;
+        }
+        T::R2Cross => {
+            own.register_value("/n", json!(r.t)).map_err(fail)?;
+            other.merge_at("/cfg", one("from_r2".into(), json!(r.t))).map_err(fail)?;
+        }
+        _ => {}
+    }
+    if r.op == 1 {
+        return Err((code_of(r.c), format!("handler error {}", r.t)));
+    }
+    Ok(json!({"t": r.t, "r": t.path(), "pad": r.pad}))
+}
+
+/// The two registries mounted at /rr and /r2.
+fn reent_registries(sid: u8) -> (Arc<Registry>, Arc<Registry>) {
+    let r1 = Arc::new(Registry::new());
+    let r2 = Arc::new(Registry::new());
+    r1.set_root(rr_root(10));
+    r2.set_root(json!({"n": 0}));
+    for t in [T::RrSet, T::RrMerge, T::RrMergeRoot, T::RrRegFn, T::RrSetRoot, T::RrRead, T::RrCross, T::R2Cross] {
+        let (own, other) = if t == T::R2Cross { (&r2, &r1) } else { (&r1, &r2) };
+        // weak: the registry owns the function, the function must not keep the registry alive
+        let (wo, wx) = (Arc::downgrade(own), Arc::downgrade(other));
+        let name = t.path().rsplit('/').next().unwrap_or("");
+        own.register_function(&format!("/{name}"), move |p: Option<Value>| -> Result<Value, (ErrorCode, String)> {
+            match (wo.upgrade(), wx.upgrade()) {
+                (Some(o), Some(x)) => reent_logic(sid, t, p.unwrap_or(Value::Null), &o, &x),
+                _ => Err((ErrorCode::InternalError, "registry gone".into())),
+            }
+        })
+        .unwrap();
+    }
+    (r1, r2)
+}
+
+static PREGS: LazyLock<Mutex<HashMap<u8, repe::PeerRegistry>>> = LazyLock::new(|| Mutex::new(HashMap::new()));
+
+/// The peer registry of server `sid` (shared by its /peerreg handler and, on WebSocket servers that attach it, the server).
+pub fn preg_for(sid: u8) -> repe::PeerRegistry {
+    PREGS.lock().unwrap_or_else(|e| e.into_inner()).entry(sid).or_default().clone()
+}
+
+/// A context-aware handler that calls into the server's peer registry while it runs.
+fn peerreg(sid: u8) -> impl Fn(&CallContext, Value) -> Result<Value, (ErrorCode, String)> + Send + Sync + 'static {
+    let preg = preg_for(sid);
+    move |ctx: &CallContext, v: Value| {
+        let Some(r) = parse_req(&v) else {
+            ev(sid, EV_H, 0, T::PeerReg as u8);
+            return Err((ErrorCode::InvalidBody, "no token in body".into()));
+        };
+        ev(sid, EV_H, r.t, T::PeerReg as u8);
+        let _ = preg.len();
+        if let Some(p) = ctx.peer() {
+            let id = p.peer_id();
+            if preg.get(id).is_some() {
+                let key = format!("tok{}-{}", r.t % 16, id.0);
+                let _ = preg.alias(id, key.clone());
+                let _ = preg.get_by(key.as_str());
+                let _ = preg.aliases_for(id);
+                let _ = preg.key_for(id);
+            }
+        }
+        let _ = preg.peers().len();
+        if r.op == 1 {
+            return Err((code_of(r.c), format!("handler error {}", r.t)));
+        }
+        Ok(json!({"t": r.t, "r": T::PeerReg.path(), "pad": r.pad}))
+    }
+}
+
 fn jctx(sid: u8, t: T) -> impl Fn(&CallContext, Value) -> Result<Value, (ErrorCode, String)> + Send + Sync + 'static {
     move |ctx: &CallContext, v: Value| {
         if ctx.method() != t.path() {
@@ -444,7 +586,8 @@ fn base_router(sid: u8) -> Router {
         .with_json_ctx_blocking(T::BJCtx.path(), jctx(sid, T::BJCtx))
         .with_typed_ctx_blocking::<Tin, Tout, _>(T::BTCtx.path(), TCtxFn { sid, t: T::BTCtx })
         .with_struct("/st", St { ro: 42, sid });
-    r
+    let (r1, r2) = reent_registries(sid);
+    r.with_registry("/rr", r1).with_registry("/r2", r2).with_json_ctx(T::PeerReg.path(), peerreg(sid))
 }
 
 /// The same handlers, every one marked off-reader.
@@ -460,7 +603,8 @@ fn off_router(sid: u8) -> Router {
         .with_json_ctx_blocking(T::BJCtx.path(), jctx(sid, T::BJCtx))
         .with_typed_ctx_blocking::<Tin, Tout, _>(T::BTCtx.path(), TCtxFn { sid, t: T::BTCtx })
         .with_erased_handler(T::Erased.path(), Arc::new(Erased { sid, off: true }));
-    for t in [T::Slice, T::SRef, T::RegFn, T::RegVal, T::RegW, T::RegMissing, T::StEcho, T::StRo, T::StMissing, T::Jth] {
+    r = r.with_json_ctx_blocking(T::PeerReg.path(), peerreg(sid));
+    for t in [T::Slice, T::SRef, T::RegFn, T::RegVal, T::RegW, T::RegMissing, T::StEcho, T::StRo, T::StMissing, T::Jth, T::RrSet, T::RrMerge, T::RrMergeRoot, T::RrRegFn, T::RrSetRoot, T::RrRead, T::RrCross, T::R2Cross, T::RrConst, T::RrW] {
         let h = base.get(t.path()).expect("base route");
         r = r.with_erased_handler(t.path(), Arc::new(OffWrap(h)));
     }
